@@ -28,7 +28,7 @@ HYGIENE_RE = re.compile(
 TRUSTED_BASE = [
     "Coq 8.16.1 kernel incl. vm_compute (no native_compute)",
     "axioms: none declared; Print Assumptions of every property theorem must be 'Closed under the global context'",
-    "tools/translate.py (regex transcription of constants/tables from /repo/src into coq/gen)",
+    "tools/translate.py (anchored transcription of constants/tables/flags from /repo/src into coq/gen) and tools/arbitrate.py (a datum the translator cannot read, or reads differently, keeps its baseline value only if the implementation's observations on the whole fixed-seed case set of the properties using it are identical to the recorded baseline ones)",
     "extraction: ExtrOcamlBasic only, no Extract Constant/Inductive of our own; OCaml 4.13.1; ocaml/driver.ml",
     "correspondence harness: harness/ (Rust driver on /repo working tree with --cfg msi_verif), tools/ generators and differ",
     "modelled not verified: cfb, encoding_rs, uuid, byteorder, Rust std",
@@ -97,7 +97,7 @@ def hygiene():
 
 
 def translate():
-    rc, out = run([sys.executable, os.path.join(VERIF, "tools", "translate.py")], 120)
+    rc, out = run([sys.executable, os.path.join(VERIF, "tools", "translate.py")], 3000)
     return rc == 0, out.strip()
 
 
@@ -462,6 +462,13 @@ def main():
     log(out)
     if not ok:
         broken.append(("translator", out))
+    notes.extend(l for l in out.split("\n") if l.startswith("translate: note:"))
+    try:
+        import arbitrate
+        if arbitrate.golden().get("_generator_key") != arbitrate.generator_key():
+            notes.append("arbitration unavailable: tools/baseline/golden.json was recorded with other generators")
+    except Exception as e:
+        notes.append("arbitration unavailable: %s" % e)
 
     # 3 proofs
     names = theorems_of(prop)
